@@ -370,19 +370,30 @@ impl<'a, const D: usize> Rdp<'a, D> {
             return;
         }
 
-        let sp = SurfacePoint::new_normalize(self.points[i0], self.points[i1] - self.points[i0]);
+        let a = self.points[i0];
+        let ab = self.points[i1] - a;
+        let len2 = ab.norm_squared();
         let mut max_dist = 0.0;
         let mut max_i = 0;
 
         for i in i0 + 1..i1 {
-            let dist = (sp.projection(&self.points[i]) - self.points[i]).norm();
+            // Distance to the chord segment (not the infinite line), which also covers a
+            // zero-length chord such as the one of a closed curve
+            let t = if len2 > 0.0 {
+                ((self.points[i] - a).dot(&ab) / len2).clamp(0.0, 1.0)
+            } else {
+                0.0
+            };
+            let dist = (a + ab * t - self.points[i]).norm();
             if dist > max_dist {
                 max_dist = dist;
                 max_i = i;
             }
         }
 
-        if max_dist > self.tol {
+        // A zero-length chord (closed curve) is always split at its farthest vertex, otherwise the
+        // whole loop would collapse onto a single point
+        if max_dist > self.tol || (len2 == 0.0 && max_dist > 0.0) {
             self.simplify(i0, max_i);
             self.simplify(max_i, i1);
         }
